@@ -27,6 +27,7 @@ def specStep (sp : SpecSt) : Op → SpecSt
   | .dropBarrier b => { sp with live := sp.live.filter (fun l => l.id != b) }
   | .wait _ => sp
   | .dropHandle _ => sp
+  | .abandon _ => sp
 
 /-- One trigger call together with the barriers that were live at that instant. -/
 structure TrigRec where
